@@ -90,7 +90,12 @@ def _worker(args):
             except Exception:
                 confirmed[sig] = False
             if not confirmed[sig]:
-                unconfirmed.append(sig)
+                if sig.startswith("hang"):
+                    # a run that exceeded the time limit once and finishes in time when repeated was slowed down by the
+                    # machine, not hung (a genuine hang reproduces): noted, neither a violation nor an error
+                    ctx.notes["slow_run_not_reproduced"] += 1
+                else:
+                    unconfirmed.append(sig)
         if not confirmed[sig]:
             continue
         per[sig] += 1
